@@ -59,17 +59,6 @@ Theorem C16_suppressed_never_counts :
 Proof. exact C16_suppressed_never_counts_proof. Qed.
 Print Assumptions C16_suppressed_never_counts.
 
-(* FULL statement for the kernel connectivity slot — false of the faithful model (and of the code): *)
-Definition C16_connectivity_bit_full : Prop := C16_connectivity_bit_full_def.
-(* witnesses: (1) forced data-UDP death then successful traffic; (2) a dead TCP type inherited by a reload
-   and revived by the selection floor.  In both the node is alive and the slot still reads 0. *)
-Theorem C16_connectivity_bit_refuted :
-  (model_alive wit_cfg1 wit_h_traffic 0 DataUdp4 = true /\ m_bits (m_run wit_cfg1 wit_h_traffic) 0 DataUdp4 = false)
-  /\ (model_alive wit_cfg1 wit_h_reload 0 Tcp4 = true /\ m_bits (m_run wit_cfg1 wit_h_reload) 0 Tcp4 = false)
-  /\ ~ C16_connectivity_bit_full.
-Proof. exact C16_connectivity_bit_refuted_proof. Qed.
-Print Assumptions C16_connectivity_bit_refuted.
-
 (* FULL statement for the reload floor — false of the faithful model (and of the code) when groups share a node *)
 Definition C16_reload_floor_full : Prop := C16_reload_floor_full_def.
 Theorem C16_reload_floor_refuted :
